@@ -792,7 +792,14 @@ func c07SignatureHalvesAligned(c *eng.Ctx, r *eng.Report) {
 		return
 	}
 	aligned := 0
+	// recoverPlain itself and the eth_tx helpers it calls directly (the 65-byte encoding may be a function of its own)
+	scope := eng.Sites(fn)
 	for _, s := range eng.Sites(fn) {
+		if t := s.Common().StaticCallee(); t != nil && t.Blocks != nil && strings.HasSuffix(eng.FuncPkgPath(t), "/src/eth_tx") {
+			scope = append(scope, eng.Sites(t)...)
+		}
+	}
+	for _, s := range scope {
 		if s.Name() != "builtin:copy" {
 			continue
 		}
